@@ -956,4 +956,121 @@ theorem expandDatasubsetB_quiet (T : Tables) (hT : QuietTables T) (fuel : Nat) (
     simp only []
     rw [(applyTablesAllB_quiet T t.edition ns { enforce := .strict } [] (quietDDO_fresh .strict) hq).1]
 
+/-! ### what the index and the evaluated bits are -/
+
+
+/-- FM 94 reading used by the library: the data entities a bit-map may refer to are the nodes in
+front of the first operator that opens a bit-map section, leaving out what a zero-count replication
+left out, and every replication, sequence and operator descriptor other than 2 05 YYY -/
+def isDataEntity (n : Node) : Bool := !isDdForDpbm n
+
+/-- positions (1-based, counted from `i+1`) of the data entities of `l` up to the first start operator -/
+def dataPositionsSpec : List Node → Nat → List Nat
+  | [], _ => []
+  | n :: ns, i =>
+    if isStartDpbm n.desc then []
+    else (if isDataEntity n then [i + 1] else []) ++ dataPositionsSpec ns (i + 1)
+
+theorem indexScan_spec : ∀ (l : List Node) (i : Nat) (acc : List Nat),
+    (indexScan l i acc).1 = acc.reverse ++ dataPositionsSpec l i
+  | [], i, acc => by simp [indexScan, dataPositionsSpec]
+  | n :: ns, i, acc => by
+    unfold indexScan dataPositionsSpec isDataEntity
+    split
+    · simp
+    · split
+      · rw [indexScan_spec ns (i + 1) acc]; simp [*]
+      · rw [indexScan_spec ns (i + 1) ((i + 1) :: acc)]; simp [*]
+
+theorem dataPositions_spec (bsq : List Node) : dataPositions bsq = dataPositionsSpec bsq 0 := by
+  unfold dataPositions
+  rw [indexScan_spec]; simp
+
+/-- every indexed position names a data entity of the sequence, in front of the first start operator -/
+theorem dataPositionsSpec_mem : ∀ (l : List Node) (i p : Nat), p ∈ dataPositionsSpec l i →
+    i < p ∧ p ≤ i + l.length ∧ ∃ n, l[p - i - 1]? = some n ∧ isDataEntity n = true ∧
+      ∀ k, k < p - i - 1 → ∀ m, l[k]? = some m → isStartDpbm m.desc = false
+  | [], i, p, h => by simp [dataPositionsSpec] at h
+  | n :: ns, i, p, h => by
+    unfold dataPositionsSpec at h
+    split at h
+    · simp at h
+    · rename_i hs
+      have hs' : isStartDpbm n.desc = false := by simpa using hs
+      simp only [List.mem_append] at h
+      rcases h with h | h
+      · split at h
+        · rename_i hd
+          simp only [List.mem_singleton] at h
+          subst h
+          refine ⟨by omega, by simp, n, by simp, hd, ?_⟩
+          intro k hk; omega
+        · simp at h
+      · obtain ⟨a, b, m, c, d, e⟩ := dataPositionsSpec_mem ns (i + 1) p h
+        refine ⟨by omega, by simp; omega, m, ?_, d, ?_⟩
+        · have : p - i - 1 = (p - (i + 1) - 1) + 1 := by omega
+          rw [this, List.getElem?_cons_succ]; exact c
+        · intro k hk m' hm'
+          cases k with
+          | zero => simp at hm'; rw [← hm']; exact hs'
+          | succ k' =>
+            rw [List.getElem?_cons_succ] at hm'
+            exact e k' (by omega) m' hm'
+
+
+
+theorem mem_zeroBits (nb : Nat) : ∀ (ns : List Node) (i k : Nat),
+    k ∈ zeroBits nb ns i ↔ i ≤ k ∧ k < nb ∧ ∃ n, ns[k - i]? = some n ∧ n.ival = 0
+  | [], i, k => by simp [zeroBits]
+  | n :: ns, i, k => by
+    unfold zeroBits
+    split
+    · rename_i h
+      simp only [List.not_mem_nil, false_iff, not_and]
+      intro h1 h2; omega
+    · rename_i h
+      have hi : i < nb := by omega
+      simp only [List.mem_append]
+      rw [mem_zeroBits nb ns (i + 1) k]
+      constructor
+      · intro hh
+        rcases hh with hh | hh
+        · split at hh
+          · rename_i hz
+            simp only [List.mem_singleton] at hh
+            subst hh
+            exact ⟨Nat.le_refl _, hi, n, by simp, hz⟩
+          · simp at hh
+        · obtain ⟨a, b, m, c, d⟩ := hh
+          refine ⟨by omega, b, m, ?_, d⟩
+          have : k - i = (k - (i + 1)) + 1 := by omega
+          rw [this, List.getElem?_cons_succ]; exact c
+      · intro ⟨a, b, m, c, d⟩
+        by_cases hk : k = i
+        · subst hk
+          simp only [Nat.sub_self, List.getElem?_cons_zero, Option.some.injEq] at c
+          subst c
+          left; simp [d]
+        · right
+          refine ⟨by omega, b, m, ?_, d⟩
+          have : k - i = (k - (i + 1)) + 1 := by omega
+          rw [this, List.getElem?_cons_succ] at c; exact c
+
+/-- the zero bits come out in increasing order (so the k-th marker stands for the k-th element flagged present) -/
+theorem zeroBits_sorted (nb : Nat) : ∀ (ns : List Node) (i : Nat), (zeroBits nb ns i).Pairwise (· < ·)
+  | [], i => by simp [zeroBits]
+  | n :: ns, i => by
+    unfold zeroBits
+    split
+    · simp
+    · have ih := zeroBits_sorted nb ns (i + 1)
+      split
+      · simp only [List.singleton_append, List.pairwise_cons]
+        refine ⟨?_, ih⟩
+        intro k hk
+        have := (mem_zeroBits nb ns (i + 1) k).mp hk
+        omega
+      · simpa using ih
+
+
 end Bufr
